@@ -1,7 +1,98 @@
-//! C04 — not built yet.
+//! C04 — Serializable admits only serializable outcomes.
+//!
+//! Reuses the generator, the order-based model and the executor of `c03` (see there). What is specific
+//! here: histories with reads and mixed isolation levels (70 % all-Serializable), the SSI rule of the
+//! model (a Serializable transaction with a non-empty write set is refused with `SerializationFailure`
+//! iff an overlapping committed transaction wrote something it read; read-only and non-overlapping
+//! transactions are never refused; Snapshot / ReadCommitted transactions are never refused for reads),
+//! and the global dependency-graph check over the committed Serializable transactions of each finished
+//! history (`c03::dependency_graph_check`, run inside `check_history`).
 
-use crate::driver::Run;
+use proptest::prelude::*;
+
+use crate::driver::{Run, hash_of, ok};
+use crate::props::c03::{
+    EnumCase, EnumCfg, LEVELS_ALL, MAX_TX, N_ENT, Op, Summary, check_history, decode, enumerate_histories, history_strategy, resolve,
+    sessions,
+};
+
+static LEVELS_SER: [u8; 1] = [2];
+
+pub fn c04_class(s: &Summary) -> (bool, String) {
+    let base = if s.rw_refusals > 0 {
+        "rw-refused"
+    } else if s.readonly_stale_accept {
+        "stale-read-only-accepted"
+    } else if s.rw_antidep {
+        "rw-antidep-accepted"
+    } else {
+        "no-rw-antidep"
+    };
+    let mut class = base.to_string();
+    if s.ww_refusals > 0 {
+        class.push_str("+ww");
+    }
+    if s.all_serializable {
+        class.push_str("/all-ser");
+    } else {
+        class.push_str("/mixed");
+    }
+    (s.rw_antidep, class)
+}
 
 pub fn run(r: &mut Run) {
-    r.inconclusive("C04: check not built yet");
+    r.level = "exploration";
+    r.rule = "tm_histories: random TransactionManager histories with reads (<=6 transactions, <=4 entities, <=25/60 steps; 70% all \
+              Serializable, 30% mixed levels; 40% start with a seeded shape: write skew, lost update, stale read-only, long-runner, \
+              sequential writers), each run three times (as generated / gc stripped / gc after every step), compared with the \
+              order-based model and closed by a dependency-graph acyclicity check over the committed Serializable transactions. \
+              Non-trivial = at least one rw-antidependency (T read e, an overlapping T' wrote e and committed) whose reader reached \
+              commit (accepted or refused); distinct by hash of the resolved history. tm_exhaustive: every well-formed history of \
+              exactly N steps over <=3 transactions, <=2 entities, levels {SI, Serializable}, with reads. sessions: the same \
+              shapes through 2-3 Sessions (GQL MATCH..RETURN / MATCH..SET)."
+        .into();
+    r.assumptions.push("a refused commit leaves the transaction Active (implementation behaviour)".into());
+    r.assumptions.push(
+        "a record_read is a snapshot read: it observes the versions committed before the reader began (ReadCommitted readers are never graph nodes)".into(),
+    );
+    r.assumptions.push("when a commit has both a write-write and a read-write conflict either error kind is accepted".into());
+
+    let max_len = if r.is_thorough() { 60 } else { 25 };
+    r.subcheck(
+        "tm_histories",
+        r.cases(100_000, 4_000_000),
+        move || prop_oneof![7 => history_strategy(&LEVELS_SER, N_ENT, 6, max_len), 3 => history_strategy(&LEVELS_ALL, N_ENT, 6, max_len)],
+        |ops: &Vec<Op>| {
+            let rops = resolve(ops, MAX_TX);
+            let sum = check_history(&rops)?;
+            let (nt, class) = c04_class(&sum);
+            ok(nt, class, hash_of(&rops))
+        },
+    );
+
+    let steps = std::env::var("VERIF_ENUM_STEPS").ok().and_then(|s| s.parse().ok()).unwrap_or(if r.is_thorough() { 8 } else { 7 });
+    let cfg = EnumCfg { max_tx: 3, n_ent: 2, steps, levels: &[1, 2], reads: true };
+    let items = enumerate_histories(&cfg);
+    r.note(format!("tm_exhaustive: {} histories of exactly {} steps", items.len(), cfg.steps));
+    r.enumerate("tm_exhaustive", items, true, |c: &EnumCase| {
+        let rops = decode(c);
+        let sum = check_history(&rops)?;
+        let (nt, class) = c04_class(&sum);
+        ok(nt, class, hash_of(c))
+    });
+
+    if r.is_thorough() {
+        // the statement's own scope (every transaction Serializable), one step deeper
+        let cfg = EnumCfg { max_tx: 3, n_ent: 2, steps: 9, levels: &[2], reads: true };
+        let items = enumerate_histories(&cfg);
+        r.note(format!("tm_exhaustive_allser: {} histories of exactly {} steps", items.len(), cfg.steps));
+        r.enumerate("tm_exhaustive_allser", items, true, |c: &EnumCase| {
+            let rops = decode(c);
+            let sum = check_history(&rops)?;
+            let (nt, class) = c04_class(&sum);
+            ok(nt, class, hash_of(c))
+        });
+    }
+
+    sessions::run_c04(r);
 }
